@@ -78,6 +78,7 @@ type Exec struct {
 	mapOrder int
 	mapRot   int
 	mdl      *model
+	stubCache map[stubKey]strVal
 	auxVars  []*Term
 	nextMap  int
 	fileData map[string]fileStub
